@@ -24,6 +24,7 @@ def all_splits(n):
         yield [(b[i], b[i + 1]) for i in range(len(b) - 1)]
 
 
+UNOPS = ['once', 'hist', 'not', 'abs', 'neg', 'sqrt']       # index = the `kind` of the driver command onlun
 BINOPS = ['and', 'or', 'sub', 'add', 'implies', 'iff', 'xor']      # index = the `op` of the driver commands oisect / binrun (Run.bin_f)
 
 
@@ -73,7 +74,8 @@ class C05(Check):
             'region they cover; all chunkings are thereby compared with each other; non-trivial = temporal operator and >= 4 chunkings; '
             'distinct by (formula, signals); plus direct calls of the online intersection(a, b, method) and of update() of the and / or / implies / iff / xor / addition / subtraction '
             'operations on random batch sequences (empty batches, repeated boundary samples with the same or another value, +inf stamps, 15% malformed streams), compared list for list, '
-            'buffers and last_output included, with the proved model DenseOnlineMerge (oisect_e, bin_run_e)')
+            'buffers and last_output included, with the proved model DenseOnlineMerge (oisect_e, bin_run_e); and of update() of the once / historically / since (unbounded), not / abs / unary minus / sqrt and '
+            'bounded once / historically operation classes (bounds [0,0], [a,a], [0,b], [a,b], signals starting at 0 and later), outputs of every call and the state kept between calls, with DenseOnlineFold / DenseOnlineWin')
 
     def gen_cases(self, rng, tier):
         cases = []
@@ -179,6 +181,28 @@ class C05(Check):
                 cases.append({'omerge': op, 'a': a, 'b': b, 'n': 0})
             else:
                 cases.append({'binrun': op, 'batches': cut_batches(rng, a, b), 'n': 0})
+        # the other operation classes, called directly: against DenseOnlineFold (once / historically / since unbounded, unary point-wise operations)
+        # and DenseOnlineWin (bounded once / historically) — outputs of every update() and the state kept between calls
+        for i in range(nm):
+            kind = rng.choice(['once', 'hist', 'not', 'abs', 'neg', 'sqrt', 'since', 'since', 'once_timed', 'once_timed', 'hist_timed', 'hist_timed'])
+            bad = rng.random() < 0.12
+            if kind == 'since':
+                a, b = gen_online_signal(rng, bad, True), gen_online_signal(rng, bad and rng.random() < 0.5, True)
+                cases.append({'onlop': kind, 'batches': cut_batches(rng, a, b), 'n': 0})
+            elif kind.endswith('_timed'):
+                sg = gen_online_signal(rng, bad, True)
+                sg = [x for x in sg if x[0] != 'inf']
+                if sg and rng.random() < 0.7:
+                    d = sg[0][0]
+                    sg = [[t - d, v] for t, v in sg]          # starts at 0 (the proved case); the others start late
+                a_ = rng.choice([0, 0, 1, 2, 3])
+                b_ = a_ + rng.choice([0, 0, 1, 2, 4, 9])
+                cases.append({'onlop': kind, 'a': a_, 'b': b_, 'batches': [x[0] for x in cut_batches(rng, sg, [])], 'n': 0})
+            else:
+                sg = gen_online_signal(rng, bad, kind != 'sqrt')
+                if kind == 'sqrt':
+                    sg = [[t, rng.choice([0, 1, 4, 9, 16, 25, -1, 'inf'])] for t, v in sg]
+                cases.append({'onlop': kind, 'batches': [x[0] for x in cut_batches(rng, sg, [])], 'n': 0})
         return cases
 
     def load_case(self, c):
@@ -190,6 +214,13 @@ class C05(Check):
             return ['(oisect %d %s %s)' % (BINOPS.index(c['omerge']), sx_samples(c['a']), sx_samples(c['b']))]
         if 'binrun' in c:
             return ['(binrun %d (%s))' % (BINOPS.index(c['binrun']), ' '.join('(%s %s)' % (sx_samples(b1), sx_samples(b2)) for b1, b2 in c['batches']))]
+        if 'onlop' in c:
+            k = c['onlop']
+            if k == 'since':
+                return ['(onlsince (%s))' % ' '.join('(%s %s)' % (sx_samples(b1), sx_samples(b2)) for b1, b2 in c['batches'])]
+            if k.endswith('_timed'):
+                return ['(onlwin %d %d %d (%s))' % (0 if k == 'once_timed' else 1, c['a'], c['b'], ' '.join(sx_samples(b) for b in c['batches']))]
+            return ['(onlun %d (%s))' % (UNOPS.index(k), ' '.join(sx_samples(b) for b in c['batches']))]
         kind = 'pastdn' if c['past'] else 'dn'
         used = fml.fvars(c['f'])
         tend = max(c['sigs'][i][-1][0] for i in used)
@@ -202,6 +233,8 @@ class C05(Check):
             return [{'monitor': 'dense-online-merge', 'op': c['omerge'], 'a': c['a'], 'b': c['b']}]
         if 'binrun' in c:
             return [{'monitor': 'dense-online-binop', 'op': c['binrun'], 'batches': c['batches']}]
+        if 'onlop' in c:
+            return [{'monitor': 'dense-online-op', 'op': c['onlop'], 'batches': c['batches'], 'a': c.get('a'), 'b': c.get('b')}]
         used = fml.fvars(c['f'])
         out = []
         for ch in c['chunkings']:
@@ -235,6 +268,38 @@ class C05(Check):
             if got != exp:
                 return 'violation', dict(det, kind='list', expected={'source': 'DenseOnlineMerge.oisect_e (out, last, remainder_1, remainder_2)', 'value': exp}, observed=got)
             return 'ok', None
+        if 'onlop' in c:
+            k = c['onlop']
+            det = {'call': '%s operation%s: update() per batch' % (k, ('(%d, %d)' % (c['a'], c['b'])) if k.endswith('_timed') else ''), 'batches': c['batches']}
+            tag = ml.split(' ', 1)[0]
+            src = 'DenseOnlineWin' if k.endswith('_timed') else 'DenseOnlineFold'
+            if ml.endswith(' BAD'):
+                if failed is not None and failed['status'] in ('rtamt', 'crash'):
+                    return 'ok', None          # the operation raises where the model does (IndexError on an emptied stack, sqrt of a negative number)
+                return 'violation', dict(det, kind='list', expected={'source': src, 'value': 'an exception'}, observed='every update() returned')
+            parts = [p.strip() for p in ml[len(tag):].split('|')]
+            outs = [lst(o) for o in parts[0].split(';')] if c['batches'] else []
+            exp = {'outputs': outs}
+            fld = {p.split(' ', 1)[0]: (p.split(' ', 1)[1] if ' ' in p else '') for p in parts[1:]}
+            if failed is not None:
+                return 'violation', dict(det, kind='list', expected=dict(exp, source=src), observed=failed)
+            fin = calls[-1]['value']
+            got = {'outputs': [canon(r['value']) for r in calls[:-1]]}
+            val = lambda x: fml.val_sx(fml.parse_val(str(x)))
+            if k in ('once', 'hist'):
+                exp['prev'] = val(fld['PREV'])
+                got['prev'] = val(fin[0])
+            elif k == 'since':
+                exp.update({'left_buffer': lst(fld['L']), 'right_buffer': lst(fld['R']), 'prev': val(fld['PREV']), 'last': (lst(fld['LAST']) or [[]])[0]})
+                got.update({'left_buffer': canon(fin[0]), 'right_buffer': canon(fin[1]), 'prev': val(fin[2]), 'last': (canon([fin[3]]) if fin[3] else [[]])[0]})
+            elif k.endswith('_timed'):
+                pc = lambda x: [int(x.split(':')[0]), (x.split(':')[1] if x.split(':')[1] == 'inf' else int(x.split(':')[1])), val(x.split(':')[2])]
+                exp.update({'prev_pieces': [pc(x) for x in fld['PREV'].split()], 'residual_start': fld['RS'] if fld['RS'] in ('inf', '-inf') else int(fld['RS']), 'started': fld['STARTED'] == '1'})
+                got.update({'prev_pieces': [[a_, b_, val(v_)] for a_, b_, v_ in fin[0]], 'residual_start': fin[1], 'started': fin[2]})
+            if got != exp:
+                return 'violation', dict(det, kind='list', expected=dict(exp, source=src + ' (outputs per call, state after the last call)'), observed=got)
+            self.direct = getattr(self, 'direct', 0) + 1
+            return 'ok', None
         det = {'call': '%s operation: update() per batch' % c['binrun'], 'batches': c['batches']}
         if ml == 'BINRUN BAD':
             if failed is not None and failed['status'] == 'rtamt':
@@ -257,7 +322,7 @@ class C05(Check):
     def judge(self, c, mlines, ires):
         if mlines[0].startswith('ERROR'):
             return 'model-error', mlines[0]
-        if 'omerge' in c or 'binrun' in c:
+        if 'omerge' in c or 'binrun' in c or 'onlop' in c:
             return self.judge_direct(c, mlines, ires)
         if not dense.dn_exact(mlines[0]):
             return 'dropped', None
@@ -296,8 +361,8 @@ class C05(Check):
         return 'ok', None
 
     def signature(self, c, detail):
-        if 'omerge' in c or 'binrun' in c:
-            return {'shape': 'online_merge_differs_from_model', 'op': c.get('omerge', c.get('binrun'))}
+        if 'omerge' in c or 'binrun' in c or 'onlop' in c:
+            return {'shape': 'online_operation_differs_from_model', 'op': c.get('omerge', c.get('binrun', c.get('onlop')))}
         sig = Check.signature(self, c, detail)
         def const_binary(g):
             ks = fml.children(g)
@@ -322,27 +387,29 @@ class C05(Check):
             return ['online-merge:' + c['omerge']]
         if 'binrun' in c:
             return ['online-binop:' + c['binrun']]
+        if 'onlop' in c:
+            return ['online-op:' + c['onlop']]
         return Check.features(self, c)
 
     def nontrivial(self, c):
         if 'omerge' in c:
             return len(c['a']) + len(c['b']) >= 3
-        if 'binrun' in c:
+        if 'binrun' in c or 'onlop' in c:
             return len(c['batches']) >= 2
         return bool(fml.ops(c['f']) & (fml.UN | fml.BIN | fml.TUN | fml.TBIN) - {'not', 'and', 'or', 'implies', 'iff', 'xor'}) and len(c['chunkings']) >= 4
 
     def key(self, c):
-        if 'omerge' in c or 'binrun' in c:
+        if 'omerge' in c or 'binrun' in c or 'onlop' in c:
             return json.dumps(c, sort_keys=True)
         return json.dumps([fml.to_sx(c['f']), c['sigs']])
 
     def describe(self, c):
-        if 'omerge' in c or 'binrun' in c:
+        if 'omerge' in c or 'binrun' in c or 'onlop' in c:
             return c
         return {'spec': 'out = ' + dense.dense_formula_text(c['f']), 'pastified': c['past'], 'signals': [dense.to_impl(s) for s in c['sigs']], 'chunkings': len(c['chunkings'])}
 
     def normalize(self, c):
-        if 'omerge' in c or 'binrun' in c:
+        if 'omerge' in c or 'binrun' in c or 'onlop' in c:
             return c
         # after shrinking the signals the chunkings are recomputed: one batch per sample and everything at once
         c = dict(c)
